@@ -4,7 +4,7 @@ from __future__ import annotations
 
 from .. import terms as tm
 from ..model import AnalysisError
-from .common import ob, need, call_name, facts, role_of, roles, count_form, nonempty_bases
+from .common import ob, need, call_name, facts, role_of, roles, count_form, nonempty_bases, linear_form
 from .. import symeval
 from . import c01
 
@@ -707,6 +707,62 @@ def rule_emptyread(ctx):
     need(n >= 10, R, "positional reads of input arrays not enumerated")
 
 
+def rule_negdim(ctx):
+    """np.zeros(n) / ones / empty with n a *difference* of sizes is reached only under a test that n >= 0
+    (a negative dimension raises ValueError for a valid input whose two sides differ in length the other way)."""
+    R = "C14.NEGDIM"
+    n = 0
+    for f in ctx.program.all_funcs():
+        if f.module.name in ("display", "sonify"):
+            continue
+        s = ctx.S.get(f.qual)
+        k = 0
+        for c in s.calls():
+            if c.callee not in ("np.zeros", "np.ones", "np.empty", "np.full") or not c.args:
+                continue
+            size = c.args[0]
+            lf = linear_form(size)
+            neg = [x for kk, (co, x) in lf.items() if co < 0 and x.op != "const"]
+            if not neg:
+                continue
+            k += 1
+            n += 1
+            ok = False
+            for cnd, pol in facts(c.pc):
+                if cnd.op == "cmp" and cnd.a[0] in ("<=", "<") and pol and tm.is_const(cnd.a[1], 0) and cnd.a[2] is size:
+                    ok = True
+                if cnd.op == "cmp" and cnd.a[0] == "<" and not pol and cnd.a[1] is size and tm.is_const(cnd.a[2], 0):
+                    ok = True
+            yield ob(R, f, "%s:alloc-size@%d" % (f.qual, k), ok, "%s allocates %s elements only where that difference is tested non-negative" % (c.callee, tm.show(size, 3)) if ok else "%s(%s): the size is a difference of lengths and nothing on the path proves it non-negative" % (c.callee, tm.show(size, 3)), node=c.node)
+    need(n >= 2, R, "difference-sized allocations not found (melody.to_cent_voicing has two)")
+
+
+def rule_perannotation(ctx):
+    """segment.validate_structure checks *each* of the two annotations: the label-count test and the starts-at-0 test sit
+    inside the loop over [(reference...), (estimated...)], not after it (where only the last pair would be tested)."""
+    R = "C14.PERANNOTATION"
+    f = ctx.program.func("segment.validate_structure", R)
+    s = ctx.S.get(f.qual)
+    loops = [(lid, it) for lid, (node, it) in s.loops.items() if it.op in ("list", "tuple") and len(it.a) == 2 and all(x.op == "tuple" for x in it.a)]
+    need(len(loops) == 1, R, "validate_structure: loop over the two annotations not found")
+    lid, it = loops[0]
+    both = {frozenset(roles(x)) for x in it.a} == {frozenset({"R"}), frozenset({"E"})}
+    yield ob(R, f, "segment.validate_structure:loop-covers-both", both, "the loop visits (reference_intervals, reference_labels) and (estimated_intervals, estimated_labels)")
+    inside = [r for r in s.by_kind("raise") if any(x[0] == "loop" and x[1] == lid for x in r.pc)]
+    msgs = []
+    for r in s.by_kind("raise"):
+        msgs.append((r, any(x[0] == "loop" and x[1] == lid for x in r.pc)))
+    # which tests are outside although they read the loop's variables?
+    outside_using_loopvar = []
+    for r, ins in msgs:
+        if not ins:
+            for c, _p in symeval.pc_conds(r.pc):
+                if any(x.op in ("loop", "loopvar", "iter") for x in tm.walk(c)):
+                    outside_using_loopvar.append(r)
+    calls_in = [c for c in s.calls() if c.callee == "util.validate_intervals" and any(x[0] == "loop" and x[1] == lid for x in c.pc)]
+    yield ob(R, f, "segment.validate_structure:per-annotation-tests", len(inside) >= 2 and not outside_using_loopvar and len(calls_in) == 1, "validate_intervals, the label-count test and the starts-at-0 test run once per annotation (inside the loop)" if len(inside) >= 2 and not outside_using_loopvar else "a test on the loop's annotation variables sits after the loop (line %s): only the last annotation (the estimate) is checked" % ", ".join(str(r.node.lineno) for r in outside_using_loopvar) if outside_using_loopvar else "fewer than two raising tests remain inside the per-annotation loop")
+
+
 RULES = [
     ("C14.VALIDATEFIRST", 70, rule_validatefirst),
     ("C14.RAISETYPES", 80, rule_raisetypes),
@@ -720,4 +776,6 @@ RULES = [
     ("C14.NONEGUARD", 3, rule_noneguard),
     ("C14.EMPTYREDUCE", 3, rule_emptyreduce),
     ("C14.EMPTYREAD", 10, rule_emptyread),
+    ("C14.NEGDIM", 2, rule_negdim),
+    ("C14.PERANNOTATION", 2, rule_perannotation),
 ]
